@@ -1,6 +1,6 @@
 (* C06: today's code (cfg_current) violates the property. Witnesses closed by vm_compute. *)
 From Coq Require Import ZArith NArith List Bool String.
-From OG Require Import C06.Model C06.Proofs.
+From OG Require Import C06.ModelWriter C06.Model C06.Proofs.
 Import ListNotations.
 Open Scope Z_scope.
 
@@ -60,3 +60,25 @@ Theorem C06_ts_overflow_refuted :
                    Ok [{| r_name := bs "m"; r_tags := []; r_fields := [(bs "x", VInt 1 1)]; r_ts := Some 290448384 |}] /\
                  accept_block dec2f_exact cfg_repaired mult s = Err.
 Proof. exists (bs "m x=1i 18446744074"), 1000000000. vm_compute. split; reflexivity. Qed.
+
+(* today's writer drops a field named `time` without a word: the row is handed on without an error and without the field *)
+Theorem C06_time_field_refuted :
+  exists s, match accept_block dec2f_exact cfg_repaired 1 s with
+            | Ok [r] =>
+                snd (writer_row wcfg_current [] r) =
+                  {| wo_err := false; wo_row := Some {| r_name := bs "tf"; r_tags := []; r_fields := [(bs "x", VInt 1 1)]; r_ts := Some 1000 |} |} /\
+                snd (writer_row wcfg_repaired [] r) = {| wo_err := true; wo_row := None |}
+            | _ => False
+            end.
+Proof. exists (bs "tf time=5i,x=1i 1000"). vm_compute. split; reflexivity. Qed.
+
+(* today's writer reports an error for a row with a tag named `time` and hands the row on in the series without that tag *)
+Theorem C06_time_tag_refuted :
+  exists s, match accept_block dec2f_exact cfg_repaired 1 s with
+            | Ok [r] =>
+                snd (writer_row wcfg_current [] r) =
+                  {| wo_err := true; wo_row := Some {| r_name := bs "tt"; r_tags := []; r_fields := [(bs "x", VInt 1 1)]; r_ts := Some 1000 |} |} /\
+                snd (writer_row wcfg_repaired [] r) = {| wo_err := true; wo_row := None |}
+            | _ => False
+            end.
+Proof. exists (bs "tt,time=a x=1i 1000"). vm_compute. split; reflexivity. Qed.
